@@ -141,6 +141,33 @@ Theorem C14_only_tick_readds : forall (script : hid -> event -> list action) (fu
 Proof. exact only_tick_readds. Qed.
 Print Assumptions C14_only_tick_readds.
 
+(* "registered for its type" means: Register was called and the closure it returned has not
+   been called yet.  In every reachable state a slot of the handler table holds a callback iff
+   exactly one not-yet-called closure points to it; so a closure only ever removes the handler
+   it registered, also after the slot has been reused (repaired behaviour,
+   fixes/C14-unregister-idempotent.patch).  Together with C14_dispatch_exactly_once /
+   C14_priority_first (which speak about the table) this is "each exactly once by every handler
+   registered for its type". *)
+Theorem C14_registered_iff_not_unregistered : forall (script : hid -> event -> list action) (fuel c : nat) (ops : list op) (st0 st : lstate),
+  new_loop c = Ok st0 -> run script fuel st0 ops = Some st ->
+  (forall t i, (exists s, nth_error (handlers st t) i = Some s /\ s_cb s <> None) <->
+               (exists k, nth_error (tokens st) k = Some (t, i, false))) /\
+  (forall k k' t i, nth_error (tokens st) k = Some (t, i, false) ->
+                    nth_error (tokens st) k' = Some (t, i, false) -> k = k').
+Proof. exact registered_iff_not_unregistered. Qed.
+Print Assumptions C14_registered_iff_not_unregistered.
+
+Theorem C14_unregister_idempotent : forall (st : lstate) (k : nat), unregister (unregister st k) k = unregister st k.
+Proof. exact unregister_idempotent. Qed.
+Print Assumptions C14_unregister_idempotent.
+
+(* the closure of the unpatched tree clears slot (t,i) on every call: register h1, call its closure,
+   register h2 (reuses the slot), call the FIRST closure again -> h2 is gone although its own closure
+   was never called; with the repaired closure h2 stays *)
+Theorem C14_unregister_current_refuted : stale_demo unregister_current = [] /\ stale_demo unregister = [2%N].
+Proof. exact unregister_current_refuted. Qed.
+Print Assumptions C14_unregister_current_refuted.
+
 (* non-vacuity of the loop theorems: capacity 2; handler 7 (prioritised, type 0) unregisters
    handler 5 during dispatch and defers an event; two events deferred on type 0; overflow *)
 Definition ex_script (h : hid) (_ : event) : list action :=
